@@ -12,32 +12,20 @@ stored lists, the duplicate checks and the add/remove messages work on texts whi
 the by-address queries work on accounts).  A rejected operation leaves the state unchanged
 (transaction rollback).
 
-OPEN FINDING C14-spec-owner-respelling-drops-index-entry: `indexContractSpecification` /
-`indexScopeSpecification` (x/metadata/keeper/specification.go:271-296, 495-549) diff the owner
-lists as TEXTS but build the index keys from the decoded accounts, adds first, removals second.
-Re-writing a specification with an owner re-spelled (`pb1…` -> `PB1…`) therefore sets and then
-deletes the same key: the by-owner lookup no longer lists a specification whose stored content
-names the account.  So of the two by-owner lookups of specifications only "nothing stale" is a
-theorem for all histories (part of `Inv`); "nothing missing" is proved for histories that use one
-spelling per account in specification owners (`ownerLookups_exact_partial`) and refuted in
-general (`contractSpecsForOwner_incomplete_witness`, `scopeSpecsForOwner_incomplete_witness`).
-The by-address lookup of SCOPES diffs accounts (scope.go:371-388) and is exact for all histories
-and all spellings (`scopesForAddress_exact`).
+The model is also the code with the repair 2f403d307 ("fix: specification owner index lost
+entries when an owner was re-spelled"): `indexContractSpecification` / `indexScopeSpecification`
+diff the owner lists by ACCOUNT (`findMissingOwners`), like the scope index always did, so ALL
+five lookups are exact for all histories and all spellings.
 
-The model is the CURRENT code, i.e. with the repair ab8bb51a7 ("fix: RemoveScope left sessions
-that never had a record"): `RemoveScope` removes the scope's remaining sessions after the record
-walk.  The full claim — sessions and records always belong to an existing scope, records to an
-existing session, all lookups exact, `DeleteScope` leaves nothing — is proved at full strength
-(`refInv_run`, `refInv_reachable`, `deleteScope_removes_everything`).
-
-HISTORICAL: before ab8bb51a7 `RemoveScope` (x/metadata/keeper/scope.go:169-198 at d172e538b)
-walked only the scope's RECORDS and relied on `RemoveRecord` to drop each session with its last
-record, so a session that never had a record survived `DeleteScope`.  The `…_before_fix`
-theorems are the negation witnesses about that code (`removeScopePreFix` / `runPreFix`); they are
-what the finding `C14-recordless-session-survives-scope-delete` (now fixed) replayed on the real
-keeper.  The address half of the property is in `PvProofs/C14Addr.lean`.
+HISTORICAL: before 2f403d307 the two specification indexers diffed the owner lists as TEXTS but
+built the index keys from the decoded accounts, adds first, removals second; re-writing a
+specification with an owner re-spelled (`pb1…` -> `PB1…`) set and then deleted the same key, and
+the by-owner lookup no longer listed a specification whose stored content names the account.  The
+`…_before_fix` theorems at `setContractSpecificationPreFix` / `setScopeSpecificationPreFix` are
+the negation witnesses about that code (finding C14-spec-owner-respelling-drops-index-entry, now
+fixed).
 -/
-import PvProofs.Lemmas.MdStoreOwners
+import PvProofs.Lemmas.MdStoreMsgs
 
 namespace PvProofs.C14
 open PvModel.MdStore PvProofs.MdLemmas
@@ -47,7 +35,7 @@ open PvModel.MdStore PvProofs.MdLemmas
 theorem inv_empty (B : Addr → Addr) : FullInv B State.empty := by
   refine ⟨⟨?_, ?_, ?_, ?_, ?_, ?_, ?_, ?_, ?_, ?_, ?_⟩, ?_⟩ <;>
     simp [State.empty, KeysUnique, RecordsHaveSession, RecordsHaveScope, RecordsInSessionScope,
-      AddrScopeExact, SpecScopeExact, OwnerScopeSpecSound, CSpecScopeSpecExact, OwnerCSpecSound,
+      AddrScopeExact, SpecScopeExact, OwnerScopeSpecExact, CSpecScopeSpecExact, OwnerCSpecExact,
       ValueOwnersHaveScope, NavsHaveScope, IdxExact, IdxSound, IdxComplete, SessionsHaveScope]
 
 /-- `DeleteScope` (RemoveScope + RemoveNetAssetValues) preserves the full invariant -/
@@ -70,10 +58,10 @@ theorem inv_step (B : Addr → Addr) (H : String → NameKey) (st : State) (op :
 store keys are unique; every session and every record belongs to an existing scope; every record
 belongs to an existing session of its own scope; the by-address lookup of scopes lists exactly
 the (account, scope) pairs where a stored owner / data-access text denotes the account; the
-by-specification lookup of scopes and the by-contract-specification lookup of scope
-specifications list exactly the pairs the stored content names; the two by-owner lookups of
-specifications list nothing the stored content does not name; value-owner coins and net asset
-values exist only for existing scopes. -/
+by-specification lookup of scopes, the by-contract-specification lookup of scope specifications
+and the two by-owner lookups of specifications (by account, like the scopes') list exactly the
+pairs the stored content names; value-owner coins and net asset values exist only for existing
+scopes. -/
 theorem refInv_run (B : Addr → Addr) (H : String → NameKey) (st : State) (ops : List Op) (h : FullInv B st) :
     FullInv B (run B H st ops) := by
   unfold run runWith
@@ -86,67 +74,47 @@ theorem refInv_reachable (B : Addr → Addr) (H : String → NameKey) (ops : Lis
     FullInv B (run B H State.empty ops) :=
   refInv_run B H State.empty ops (inv_empty B)
 
-/-! ### the by-owner lookups of specifications: complete when every account has one spelling -/
+/-! ### the by-owner lookups of specifications -/
 
-theorem ownerComplete_empty (B : Addr → Addr) (P : Addr → Prop) : OwnerComplete B P State.empty := by
-  refine ⟨?_, ?_, ?_, ?_⟩ <;>
-    simp [State.empty, OwnerScopeSpecComplete, OwnerCSpecComplete, IdxComplete]
-
-/-- PARTIAL (the full statement — `OwnerComplete` after EVERY history — is false of the code:
-`contractSpecsForOwner_incomplete_witness`; missing: histories that re-spell a specification
-owner).  If the owner texts the history writes into specifications all satisfy a predicate `P` on
-which `B` is injective (no account is spelled in two ways), the two by-owner lookups of
-specifications miss nothing after the history. -/
-theorem ownerComplete_run_partial (B : Addr → Addr) (H : String → NameKey) (P : Addr → Prop)
-    (hinj : ∀ a a', P a → P a' → B a = B a' → a = a') (st : State) (ops : List Op)
-    (h : FullInv B st) (hc : OwnerComplete B P st) (hops : ∀ op ∈ ops, ∀ a ∈ op.specOwnerTexts, P a) :
-    OwnerComplete B P (run B H st ops) := by
-  unfold run runWith
-  induction ops generalizing st with
-  | nil => exact hc
-  | cons op t ih =>
-    refine ih _ (inv_step B H st op h) ?_ (fun o ho => hops o (List.mem_cons_of_mem _ ho))
-    unfold stepWith
-    split
-    · rename_i st' hr
-      exact applyOpWith_ownerComplete hinj (removeScope B) (fun st id => removeScope_specPart st id) H h.1 hc op
-        (hops op (List.mem_cons_self ..)) hr
-    · exact hc
-
-/-- PARTIAL (see `ownerComplete_run_partial`): for histories from the empty store that use one
-spelling per account in specification owners, both by-owner lookups of specifications are EXACT. -/
-theorem ownerLookups_exact_partial (B : Addr → Addr) (H : String → NameKey) (P : Addr → Prop)
-    (hinj : ∀ a a', P a → P a' → B a = B a' → a = a') (ops : List Op)
-    (hops : ∀ op ∈ ops, ∀ a ∈ op.specOwnerTexts, P a) :
-    OwnerScopeSpecExact B (run B H State.empty ops) ∧ OwnerCSpecExact B (run B H State.empty ops) := by
-  have h := refInv_reachable B H ops
-  have hc := ownerComplete_run_partial B H P hinj State.empty ops (inv_empty B) (ownerComplete_empty B P) hops
-  exact ⟨⟨h.1.ownerScopeSpec, hc.ownerScopeSpec⟩, ⟨h.1.ownerCSpec, hc.ownerCSpec⟩⟩
-
-/-- the hypotheses of the partial theorems are satisfiable non-trivially: with `B = id` (every
-text its own account) every history qualifies -/
-example (H : String → NameKey) (ops : List Op) :
-    OwnerScopeSpecExact id (run id H State.empty ops) ∧ OwnerCSpecExact id (run id H State.empty ops) :=
-  ownerLookups_exact_partial id H (fun _ => True) (fun _ _ _ _ e => e) ops (fun _ _ _ _ => trivial)
+/-- Both by-owner lookups of specifications are EXACT (by account) after every history, whatever
+the spellings used and re-used. -/
+theorem ownerLookups_exact (B : Addr → Addr) (H : String → NameKey) (ops : List Op) :
+    OwnerScopeSpecExact B (run B H State.empty ops) ∧ OwnerCSpecExact B (run B H State.empty ops) :=
+  ⟨(refInv_reachable B H ops).1.ownerScopeSpec, (refInv_reachable B H ops).1.ownerCSpec⟩
 
 /-- a `B` with two spellings of one account, for the witnesses: `A^` is account `A` -/
 def witnessB (a : Addr) : Addr := if a = "A^" then "A" else a
 
-/-- The history that loses a by-owner entry: write a contract specification owned by `A`, then
-write it again with the owner spelled `A^` (the same account). -/
+/-- The history that lost a by-owner entry before the repair 2f403d307: write a contract
+specification owned by `A`, then write it again with the owner spelled `A^` (the same account). -/
 def respellWitness : List Op := [
   .writeContractSpec { id := "c1", owners := ["A"] },
   .writeContractSpec { id := "c1", owners := ["A^"] } ]
 
-/-- NEGATION WITNESS (current code; finding C14-spec-owner-respelling-drops-index-entry): after
-`respellWitness` — both writes accepted — the stored contract specification `c1` names account
-`A` (its owner text `A^` denotes it) but the by-owner lookup of account `A` lists nothing. -/
-theorem contractSpecsForOwner_incomplete_witness :
-    ¬ OwnerCSpecComplete witnessB (run witnessB id State.empty respellWitness) ∧
-    (run witnessB id State.empty respellWitness).contractSpecs = [{ id := "c1", owners := ["A^"] }] ∧
+/-- the same two writes on the keeper as it was before 2f403d307 -/
+def respellStatePreFix : State :=
+  setContractSpecificationPreFix witnessB
+    (setContractSpecificationPreFix witnessB State.empty { id := "c1", owners := ["A"] })
+    { id := "c1", owners := ["A^"] }
+
+/-- HISTORICAL NEGATION WITNESS (code before 2f403d307; finding
+C14-spec-owner-respelling-drops-index-entry): after the two writes the stored contract
+specification `c1` named account `A` (its owner text `A^` denotes it) but the by-owner lookup of
+account `A` listed nothing. -/
+theorem contractSpecsForOwner_incomplete_before_fix :
+    ¬ OwnerCSpecComplete witnessB respellStatePreFix ∧
+    respellStatePreFix.contractSpecs = [{ id := "c1", owners := ["A^"] }] ∧
     witnessB "A^" = "A" ∧
-    contractSpecsForOwner (run witnessB id State.empty respellWitness) "A" = [] ∧
-    contractSpecsForOwner (run witnessB id State.empty (respellWitness.take 1)) "A" = ["c1"] := by
+    contractSpecsForOwner respellStatePreFix "A" = [] ∧
+    contractSpecsForOwner
+      (setContractSpecificationPreFix witnessB State.empty { id := "c1", owners := ["A"] }) "A" = ["c1"] := by
+  decide
+
+/-- on the current code the same history keeps the entry (both writes accepted) -/
+theorem respellWitness_entry_kept :
+    (run witnessB id State.empty respellWitness).contractSpecs = [{ id := "c1", owners := ["A^"] }] ∧
+    contractSpecsForOwner (run witnessB id State.empty respellWitness) "A" = ["c1"] ∧
+    OwnerCSpecExact witnessB (run witnessB id State.empty respellWitness) := by
   decide
 
 /-- the same for scope specifications -/
@@ -154,12 +122,18 @@ def respellWitnessP : List Op := [
   .writeScopeSpec { id := "p1", owners := ["A", "B"], cspecs := [] },
   .writeScopeSpec { id := "p1", owners := ["A^", "B"], cspecs := [] } ]
 
-theorem scopeSpecsForOwner_incomplete_witness :
-    ¬ OwnerScopeSpecComplete witnessB (run witnessB id State.empty respellWitnessP) ∧
-    (run witnessB id State.empty respellWitnessP).scopeSpecs = [{ id := "p1", owners := ["A^", "B"], cspecs := [] }] ∧
-    scopeSpecsForOwner (run witnessB id State.empty respellWitnessP) "A" = [] ∧
-    scopeSpecsForOwner (run witnessB id State.empty respellWitnessP) "B" = ["p1"] ∧
-    scopeSpecsForOwner (run witnessB id State.empty (respellWitnessP.take 1)) "A" = ["p1"] := by
+def respellStatePPreFix : State :=
+  setScopeSpecificationPreFix witnessB
+    (setScopeSpecificationPreFix witnessB State.empty { id := "p1", owners := ["A", "B"], cspecs := [] })
+    { id := "p1", owners := ["A^", "B"], cspecs := [] }
+
+theorem scopeSpecsForOwner_incomplete_before_fix :
+    ¬ OwnerScopeSpecComplete witnessB respellStatePPreFix ∧
+    respellStatePPreFix.scopeSpecs = [{ id := "p1", owners := ["A^", "B"], cspecs := [] }] ∧
+    scopeSpecsForOwner respellStatePPreFix "A" = [] ∧
+    scopeSpecsForOwner respellStatePPreFix "B" = ["p1"] ∧
+    scopeSpecsForOwner (run witnessB id State.empty respellWitnessP) "A" = ["p1"] ∧
+    scopeSpecsForOwner (run witnessB id State.empty respellWitnessP) "B" = ["p1"] := by
   decide
 
 /-- The history that broke the claim before the repair: write a scope and a session, never a
@@ -243,26 +217,12 @@ theorem scopesForScopeSpec_exact (B : Addr → Addr) (H : String → NameKey) (o
   · rintro ⟨sc, hsc, e, rfl⟩
     exact ⟨sc.spec, id, ⟨h.mpr ⟨sc, hsc, e, by simp⟩, rfl⟩, rfl⟩
 
-/-- The by-owner lookup of an account lists ONLY scope specifications one of whose stored owner
-texts denotes the account (nothing stale) — after every history. -/
-theorem scopeSpecsForOwner_sound (B : Addr → Addr) (H : String → NameKey) (ops : List Op) (acct : Addr) (id : UUID)
-    (hid : id ∈ scopeSpecsForOwner (run B H State.empty ops) acct) :
-    ∃ sp ∈ (run B H State.empty ops).scopeSpecs, sp.id = id ∧ ∃ a ∈ sp.owners, B a = acct := by
-  simp only [scopeSpecsForOwner, List.mem_map, List.mem_filter, decide_eq_true_eq, Prod.exists] at hid
-  obtain ⟨a', id', ⟨hm, rfl⟩, rfl⟩ := hid
-  obtain ⟨sp, hsp, e, hb⟩ := ((refInv_reachable B H ops).1).ownerScopeSpec _ hm
-  exact ⟨sp, hsp, e, by simpa using hb⟩
-
-/-- PARTIAL (full statement false: `scopeSpecsForOwner_incomplete_witness`; missing: histories
-that re-spell a specification owner).  For histories that use one spelling per account in
-specification owners, the by-owner lookup lists exactly the scope specifications whose stored
-owners name the account. -/
-theorem scopeSpecsForOwner_exact_partial (B : Addr → Addr) (H : String → NameKey) (P : Addr → Prop)
-    (hinj : ∀ a a', P a → P a' → B a = B a' → a = a') (ops : List Op)
-    (hops : ∀ op ∈ ops, ∀ a ∈ op.specOwnerTexts, P a) (acct : Addr) (id : UUID) :
+/-- The by-owner lookup of an ACCOUNT lists exactly the scope specifications one of whose stored
+owner TEXTS denotes the account — after every history, whatever the spellings. -/
+theorem scopeSpecsForOwner_exact (B : Addr → Addr) (H : String → NameKey) (ops : List Op) (acct : Addr) (id : UUID) :
     id ∈ scopeSpecsForOwner (run B H State.empty ops) acct ↔
       ∃ sp ∈ (run B H State.empty ops).scopeSpecs, sp.id = id ∧ ∃ a ∈ sp.owners, B a = acct := by
-  have h := idxExact_iff.mp (ownerLookups_exact_partial B H P hinj ops hops).1 acct id
+  have h := idxExact_iff.mp (ownerLookups_exact B H ops).1 acct id
   simp only [scopeSpecsForOwner, List.mem_map, List.mem_filter, decide_eq_true_eq, Prod.exists]
   constructor
   · rintro ⟨a', id', ⟨hm, rfl⟩, rfl⟩
@@ -283,26 +243,12 @@ theorem scopeSpecsForContractSpec_exact (B : Addr → Addr) (H : String → Name
   · intro hx
     exact ⟨c, id, ⟨h.mpr hx, rfl⟩, rfl⟩
 
-/-- The by-owner lookup of an account lists ONLY contract specifications one of whose stored
-owner texts denotes the account (nothing stale) — after every history. -/
-theorem contractSpecsForOwner_sound (B : Addr → Addr) (H : String → NameKey) (ops : List Op) (acct : Addr) (id : UUID)
-    (hid : id ∈ contractSpecsForOwner (run B H State.empty ops) acct) :
-    ∃ sp ∈ (run B H State.empty ops).contractSpecs, sp.id = id ∧ ∃ a ∈ sp.owners, B a = acct := by
-  simp only [contractSpecsForOwner, List.mem_map, List.mem_filter, decide_eq_true_eq, Prod.exists] at hid
-  obtain ⟨a', id', ⟨hm, rfl⟩, rfl⟩ := hid
-  obtain ⟨sp, hsp, e, hb⟩ := ((refInv_reachable B H ops).1).ownerCSpec _ hm
-  exact ⟨sp, hsp, e, by simpa using hb⟩
-
-/-- PARTIAL (full statement false: `contractSpecsForOwner_incomplete_witness`; missing: histories
-that re-spell a specification owner).  For histories that use one spelling per account in
-specification owners, the by-owner lookup lists exactly the contract specifications whose stored
-owners name the account. -/
-theorem contractSpecsForOwner_exact_partial (B : Addr → Addr) (H : String → NameKey) (P : Addr → Prop)
-    (hinj : ∀ a a', P a → P a' → B a = B a' → a = a') (ops : List Op)
-    (hops : ∀ op ∈ ops, ∀ a ∈ op.specOwnerTexts, P a) (acct : Addr) (id : UUID) :
+/-- The by-owner lookup of an ACCOUNT lists exactly the contract specifications one of whose
+stored owner TEXTS denotes the account — after every history, whatever the spellings. -/
+theorem contractSpecsForOwner_exact (B : Addr → Addr) (H : String → NameKey) (ops : List Op) (acct : Addr) (id : UUID) :
     id ∈ contractSpecsForOwner (run B H State.empty ops) acct ↔
       ∃ sp ∈ (run B H State.empty ops).contractSpecs, sp.id = id ∧ ∃ a ∈ sp.owners, B a = acct := by
-  have h := idxExact_iff.mp (ownerLookups_exact_partial B H P hinj ops hops).2 acct id
+  have h := idxExact_iff.mp (ownerLookups_exact B H ops).2 acct id
   simp only [contractSpecsForOwner, List.mem_map, List.mem_filter, decide_eq_true_eq, Prod.exists]
   constructor
   · rintro ⟨a', id', ⟨hm, rfl⟩, rfl⟩
